@@ -52,7 +52,9 @@ def framework_content(F):
         out[name] = []
         for df in sheets:
             d = df.reset_index() if df.index.name else df
-            out[name].append([[("" if (isinstance(v, float) and np.isnan(v)) or v is None else (num(v) if isinstance(v, (int, float, np.floating, np.integer)) and not isinstance(v, bool) else str(v))) for v in row] for row in d.to_numpy(dtype=object).tolist()])
+            # (a transition cell lists parameters separated by commas: the list is the content, not the spacing around the commas)
+            txt = (lambda v: ",".join(t.strip() for t in str(v).split(","))) if name == "transitions" else str
+            out[name].append([[("" if (isinstance(v, float) and np.isnan(v)) or v is None else (num(v) if isinstance(v, (int, float, np.floating, np.integer)) and not isinstance(v, bool) else txt(v))) for v in row] for row in d.to_numpy(dtype=object).tolist()])
     return out
 
 
@@ -175,7 +177,16 @@ def run(prop, tier):
     # ================= program-set histories (Books.tla)
     for name in (["udt", "hiv"] if thorough else ["hiv"]):
         P = at.demo(name, do_run=False)
-        pg0 = P.progsets[0]
+        pg0 = sc.dcp(P.progsets[0])
+        # one effect row with an explicit interaction outcome, a non-zero baseline and an uncertainty of 0 (sampling then rewrites the
+        # interaction text from its cache without changing any value)
+        for co in pg0.covouts.values():
+            if len(co.progs) >= 2:
+                names_ = list(co.progs.keys())[:2]
+                base_ = float(co.baseline) if co.baseline else 0.0625
+                co.__init__(co.par, co.pop, co.progs, cov_interaction=co.cov_interaction, imp_interaction="%s+%s=%r" % (names_[0], names_[1], base_ + 0.25), uncertainty=0.0, baseline=base_)
+                cov["explicit_interaction_row"] = "%s|%s" % (co.par, co.pop)
+                break
         bs = book_sets(pg0)
         q = lambda s: '"%s"' % s
         mc = "---- MODULE MCBooks ----\nEXTENDS Books\n"
@@ -355,6 +366,29 @@ def run(prop, tier):
         records.append(dict(id=rid, kind="same", a=DG.result_digest(base), b=DG.result_digest(rb)))
         index[rid] = dict(label=lab("binary result save / load"))
         rid += 1
+    # ================= framework round trips of library frameworks with structure the three above lack: two parameters in one
+    # transition cell (combined), durations / timed compartments (sir), junctions and several population types (the rest)
+    for name in (["combined", "sir"] + (["usdt", "hypertension", "diabetes", "cervicalcancer", "tb"] if thorough else [])):
+        try:
+            P = at.demo(name, do_run=False)
+        except Exception as ex:
+            V.note_drift("library model %s could not be loaded for the framework round trip: %s" % (name, str(ex)[:120]))
+            continue
+        lab = lambda what: dict(model=name, what=what)
+        P.settings.update_time_vector(end=float(P.settings.sim_start) + 5)
+        F2 = at.ProjectFramework(P.framework.to_spreadsheet())
+        F3 = at.ProjectFramework(F2.to_spreadsheet())
+        records.append(dict(id=rid, kind="same", a=dg(framework_content(P.framework)), b=dg(framework_content(F2))))
+        index[rid] = dict(label=lab("framework round trip (sheet contents)"))
+        rid += 1
+        records.append(dict(id=rid, kind="same", a=dg(framework_content(F2)), b=dg(framework_content(F3))))
+        index[rid] = dict(label=lab("second framework round trip"))
+        rid += 1
+        links = lambda F_: str(sorted((k, sorted(v)) for k, v in F_.transitions.items()))
+        records.append(dict(id=rid, kind="same", a=links(P.framework), b=links(F2)))
+        index[rid] = dict(label=lab("framework round trip (transitions per parameter)"))
+        rid += 1
+        rid = close_records(records, index, rid, lab("simulation with the re-imported framework"), at.run_model(P.settings, F2, at.ParameterSet(F2, P.data)), at.run_model(P.settings, P.framework, at.ParameterSet(P.framework, P.data)))
     # ================= a generated project with two population types, cross-type interactions and a transfer
     try:
         PM, DM = multitype_project(at)
